@@ -1,3 +1,17 @@
+(* C05Proofs.v — "a modal screen blocks its caller and shields everything beneath it" (worker s3).
+   The acceptors [chk_C05_shield_gen] (= chk_C05_gen of ScreenMon.v without its T_INPUT clause) and
+   [chk_C05_below] (every stack primitive leaves what is beneath an open modal frame in place) accept the
+   trace of every session of the screen-layer model (ScreenSem.app_run_all); the strict form (a modal push
+   returns only after its frame was closed) under the trace hypothesis [no_f13].
+   Method: a fuel-indexed Hoare judgement [run n s p Q] for handler programs with rules for the program
+   constructors ([run_seq], [run_try], [run_rd], [run_wr], [run_emit], [run_while], [run_api]); an
+   invariant [InvG] linking the world rebuilt from the trace ([SW]) to the concrete state (ideal stack =
+   [st_stack], no operation pending, fresh entry ids, frames' current entries on the stack; and, as long
+   as [no_f13] holds of the trace: the open frames are the modal entries of the stack in order, and
+   whenever the stop flag is cleared the innermost frame is closed); a relation [Rel] between the states
+   before and after a call (the modal frames are the same, in the same order, none re-opened: calls are
+   balanced); [loop_step]: every call of the loop keeps them if the handlers do; [handlers_ok]: every
+   handler of [screen_code] keeps them if the loop's calls (with less fuel) do; [loop_ok] by induction. *)
 From SL Require Import Tac.
 From RecordUpdate Require Import RecordUpdate.
 From SL Require Import PyInt LoopSem ScreenSem ScreenMon.
@@ -229,6 +243,174 @@ Proof. intros H. unfold mei. rewrite filter_app. cbn. rewrite H. rewrite app_nil
 Lemma map_e_of_id l : map en_id (map e_of l) = map sd_id l.
 Proof. rewrite map_map. reflexivity. Qed.
 
+
+(* ================================================================ what lies beneath a modal frame *)
+(* [below w f]: the entries strictly beneath the current entry of frame [f] (in the middle of a replace,
+   when the entry has just been popped: the whole stack) *)
+Definition entry_eqb (a b : entry) : bool :=
+  (en_id a =? en_id b)%nat && (en_scr a =? en_scr b)%nat && (en_args a =? en_args b)%nat && Bool.eqb (en_modal a) (en_modal b).
+Fixpoint is_prefix (a b : list entry) : bool :=
+  match a, b with
+  | [], _ => true
+  | x :: r, y :: r' => entry_eqb x y && is_prefix r r'
+  | _ :: _, [] => false
+  end.
+Fixpoint beneath (st : list entry) (id : nat) : list entry :=
+  match st with [] => [] | e :: r => if (en_id e =? id)%nat then r else beneath r id end.
+Definition below (w : sworld) (f : mframe) : list entry :=
+  match sw_replaced w with
+  | Some old => if (old =? mf_cur f)%nat then sw_stack w else beneath (sw_stack w) (mf_cur f)
+  | None => beneath (sw_stack w) (mf_cur f)
+  end.
+(* every stack primitive leaves what is beneath an open modal frame in place: for every frame open before
+   the event and still open after it, the entries beneath its current entry (it or what replaced it) are the
+   same, in the same order, with possibly more entries at the very bottom (add_first) *)
+Definition chk_C05_below (w : sworld) (e : event) : bool :=
+  match e with
+  | EUser tag a _ =>
+    if (tag =? T_STACK)%nat then
+      let w' := sworld_step w e in
+      forallb (fun f => mf_closed f ||
+                 match find (fun f' => (mf_orig f' =? mf_orig f)%nat) (sw_modal w') with
+                 | Some f' => mf_closed f' || is_prefix (below w f) (below w' f')
+                 | None => true
+                 end) (sw_modal w)
+    else true
+  | _ => true
+  end.
+
+Lemma entry_eqb_refl a : entry_eqb a a = true.
+Proof. unfold entry_eqb. rewrite !Nat.eqb_refl, eqb_reflx. reflexivity. Qed.
+Lemma is_prefix_app a x : is_prefix a (a ++ x) = true.
+Proof. induction a as [|e r IH]; cbn; [reflexivity|]. rewrite entry_eqb_refl, IH. reflexivity. Qed.
+Lemma is_prefix_refl a : is_prefix a a = true.
+Proof. rewrite <- (app_nil_r a) at 2. apply is_prefix_app. Qed.
+
+Lemma beneath_cons_ne e st id : en_id e <> id -> beneath (e :: st) id = beneath st id.
+Proof. intros H. cbn. apply Nat.eqb_neq in H. rewrite H. reflexivity. Qed.
+Lemma beneath_cons_eq e st : beneath (e :: st) (en_id e) = st.
+Proof. cbn. rewrite Nat.eqb_refl. reflexivity. Qed.
+Lemma beneath_app st x id : In id (map en_id st) -> beneath (st ++ x) id = beneath st id ++ x.
+Proof.
+  induction st as [|e r IH]; cbn; [tauto|]. destruct (en_id e =? id)%nat eqn:E; [reflexivity|].
+  intros [H|H]; [apply Nat.eqb_neq in E; contradiction|apply IH, H].
+Qed.
+
+Lemma find_orig_map (g : mframe -> mframe) l f : (forall x, mf_orig (g x) = mf_orig x) -> NoDup (map mf_orig l) -> In f l ->
+  find (fun f' => (mf_orig f' =? mf_orig f)%nat) (map g l) = Some (g f).
+Proof.
+  intros Hg. induction l as [|x r IH]; cbn; intros N H; [destruct H|]. inversion N as [|? ? Nx Nr]; subst.
+  rewrite Hg. destruct H as [->|H]; [rewrite Nat.eqb_refl; reflexivity|].
+  destruct (mf_orig x =? mf_orig f)%nat eqn:E; [|apply IH; assumption].
+  apply Nat.eqb_eq in E. exfalso. apply Nx. rewrite E. apply in_map, H.
+Qed.
+Lemma find_orig_self l f : NoDup (map mf_orig l) -> In f l -> find (fun f' => (mf_orig f' =? mf_orig f)%nat) l = Some f.
+Proof. intros N H. rewrite <- (map_id l) at 1. apply (find_orig_map (fun x => x)); auto. Qed.
+
+Lemma chk_below_not_stack w tag a t : (tag =? T_STACK)%nat = false -> chk_C05_below w (EUser tag a t) = true.
+Proof. intros H. cbn [chk_C05_below]. rewrite H. reflexivity. Qed.
+
+Lemma chk_below_intro w a t :
+  (forall f, In f (sw_modal w) -> mf_closed f = false ->
+     exists f', find (fun f' => (mf_orig f' =? mf_orig f)%nat) (sw_modal (user_step w T_STACK a t)) = Some f' /\
+                (mf_closed f' = true \/ exists x, below (user_step w T_STACK a t) f' = below w f ++ x)) ->
+  chk_C05_below w (EUser T_STACK a t) = true.
+Proof.
+  intros H. cbn [chk_C05_below sworld_step]. rewrite Nat.eqb_refl. cbv zeta. apply forallb_forall. intros f Hf.
+  destruct (mf_closed f) eqn:C; [reflexivity|]. cbn [orb].
+  destruct (H f Hf C) as (f' & -> & [C'|[x E]]); [rewrite C'; reflexivity|].
+  rewrite E, is_prefix_app. apply orb_true_r.
+Qed.
+
+(* the frames' side of the invariant *)
+Definition frames_on (w : sworld) : Prop :=
+  forall f, In f (sw_modal w) -> mf_closed f = false -> In (mf_cur f) (map en_id (sw_stack w)).
+
+Lemma below_append_new w d t :
+  sw_replaced w = None -> NoDup (map mf_orig (sw_modal w)) -> frames_on w ->
+  ~ In (sd_id d) (map en_id (sw_stack w)) -> ~ In (sd_id d) (map mf_orig (sw_modal w)) ->
+  chk_C05_below w (EUser T_STACK (sargs K_APPEND d) t) = true.
+Proof.
+  intros R N On Fr Fo. apply chk_below_intro. intros f Hf C.
+  destruct (us_append w d t) as (P1 & P2 & P3 & P4). rewrite R in P4.
+  exists f. split.
+  - rewrite P4. destruct (sd_modal d); [|apply find_orig_self; assumption]. cbn [find mf_orig].
+    destruct (sd_id d =? mf_orig f)%nat eqn:E; [|apply find_orig_self; assumption].
+    apply Nat.eqb_eq in E. exfalso. apply Fo. rewrite E. apply in_map, Hf.
+  - right. exists []. rewrite app_nil_r. unfold below. rewrite P3, R, P1.
+    apply beneath_cons_ne. cbn [e_of en_id]. intros E. apply Fr. rewrite E. apply On; assumption.
+Qed.
+
+Lemma below_append_repl w d t old :
+  sw_replaced w = Some old -> NoDup (map mf_orig (sw_modal w)) ->
+  (forall f, In f (sw_modal w) -> mf_closed f = false -> mf_cur f = old \/ In (mf_cur f) (map en_id (sw_stack w))) ->
+  ~ In (sd_id d) (map en_id (sw_stack w)) -> ~ In old (map en_id (sw_stack w)) ->
+  chk_C05_below w (EUser T_STACK (sargs K_APPEND d) t) = true.
+Proof.
+  intros R N On Fr Fo. apply chk_below_intro. intros f Hf C.
+  destruct (us_append w d t) as (P1 & P2 & P3 & P4). rewrite R in P4.
+  exists (if (mf_cur f =? old)%nat then f <| mf_cur := sd_id d |> else f). split.
+  - rewrite P4. unfold rename_cur.
+    apply (find_orig_map (fun f0 => if (mf_cur f0 =? old)%nat then f0 <| mf_cur := sd_id d |> else f0)); auto.
+    intros x. destruct (mf_cur x =? old)%nat; reflexivity.
+  - right. exists []. rewrite app_nil_r. unfold below at 1. rewrite P3, P1. unfold below. rewrite R.
+    destruct (mf_cur f =? old)%nat eqn:E.
+    + apply Nat.eqb_eq in E. cbn [mf_cur set]. rewrite E, Nat.eqb_refl. apply (beneath_cons_eq (e_of d)).
+    + rewrite (Nat.eqb_sym old), E. apply beneath_cons_ne. cbn [e_of en_id]. intros E'.
+      destruct (On f Hf C) as [X|X]; [apply Nat.eqb_neq in E; contradiction|]. apply Fr. rewrite E'. exact X.
+Qed.
+
+Lemma below_addfirst w d t :
+  sw_replaced w = None -> NoDup (map mf_orig (sw_modal w)) -> frames_on w ->
+  chk_C05_below w (EUser T_STACK (sargs K_ADD_FIRST d) t) = true.
+Proof.
+  intros R N On. apply chk_below_intro. intros f Hf C.
+  destruct (us_addfirst w d t) as (P1 & P2 & P3 & P4).
+  exists f. split; [rewrite P4; apply find_orig_self; assumption|].
+  right. exists [e_of d]. unfold below. rewrite P3, R, P1. apply beneath_app. apply On; assumption.
+Qed.
+
+Lemma below_pop w d t e r :
+  sw_replaced w = None -> NoDup (map mf_orig (sw_modal w)) -> frames_on w ->
+  sw_stack w = e :: r -> en_id e = sd_id d ->
+  chk_C05_below w (EUser T_STACK (sargs K_POP d) t) = true.
+Proof.
+  intros R N On St Ed. apply chk_below_intro. intros f Hf C.
+  destruct (us_pop w d t) as (Q1 & Q2). rewrite St in Q1. cbn [tl] in Q1.
+  assert (CL : forall f0, mf_orig (if (mf_cur f0 =? sd_id d)%nat then f0 <| mf_closed := true |> else f0) = mf_orig f0)
+    by (intros f0; destruct (mf_cur f0 =? sd_id d)%nat; reflexivity).
+  assert (NE : mf_cur f <> sd_id d -> beneath r (mf_cur f) = beneath (sw_stack w) (mf_cur f)).
+  { intros X. rewrite St. symmetry. apply beneath_cons_ne. congruence. }
+  destruct (sw_expect w) as [|[[|]| |] rest].
+  - (* the discard after a failed setup *)
+    destruct Q2 as (Q2 & Q3 & Q4).
+    exists (if (mf_cur f =? sd_id d)%nat then f <| mf_closed := true |> else f). split.
+    + rewrite Q4. unfold close_cur. apply (find_orig_map _ _ _ CL); assumption.
+    + destruct (mf_cur f =? sd_id d)%nat eqn:E; [left; reflexivity|right]. apply Nat.eqb_neq in E.
+      exists []. rewrite app_nil_r. unfold below. rewrite Q3, R, Q1. apply NE, E.
+  - destruct Q2 as (Q2 & Q3 & Q4).
+    exists (if (mf_cur f =? sd_id d)%nat then f <| mf_closed := true |> else f). split.
+    + rewrite Q4. unfold close_cur. apply (find_orig_map _ _ _ CL); assumption.
+    + destruct (mf_cur f =? sd_id d)%nat eqn:E; [left; reflexivity|right]. apply Nat.eqb_neq in E.
+      exists []. rewrite app_nil_r. unfold below. rewrite Q3, R, Q1. apply NE, E.
+  - (* the pop of a replace *)
+    destruct Q2 as (Q2 & Q3 & Q4). exists f. split; [rewrite Q4; apply find_orig_self; assumption|].
+    right. exists []. rewrite app_nil_r. unfold below. rewrite Q3, R, Q1.
+    destruct (sd_id d =? mf_cur f)%nat eqn:E.
+    + apply Nat.eqb_eq in E. rewrite St, <- E, <- Ed. symmetry. apply beneath_cons_eq.
+    + apply NE. apply Nat.eqb_neq in E. congruence.
+  - destruct Q2 as (Q2 & Q3 & Q4).
+    exists (if (mf_cur f =? sd_id d)%nat then f <| mf_closed := true |> else f). split.
+    + rewrite Q4. unfold close_cur. apply (find_orig_map _ _ _ CL); assumption.
+    + destruct (mf_cur f =? sd_id d)%nat eqn:E; [left; reflexivity|right]. apply Nat.eqb_neq in E.
+      exists []. rewrite app_nil_r. unfold below. rewrite Q3, R, Q1. apply NE, E.
+  - destruct Q2 as (Q2 & Q3 & Q4).
+    exists (if (mf_cur f =? sd_id d)%nat then f <| mf_closed := true |> else f). split.
+    + rewrite Q4. unfold close_cur. apply (find_orig_map _ _ _ CL); assumption.
+    + destruct (mf_cur f =? sd_id d)%nat eqn:E; [left; reflexivity|right]. apply Nat.eqb_neq in E.
+      exists []. rewrite app_nil_r. unfold below. rewrite Q3, R, Q1. apply NE, E.
+Qed.
+
 Section Screen.
 Variable specs : nat -> screen_spec.
 Variable typed : list (option str).
@@ -255,21 +437,26 @@ Definition chkP := chk_C05_shield_gen false.
 Definition chkS := chk_C05_shield_gen true.
 
 (* what holds at every moment, even when the fuel runs out in the middle of an operation *)
-Definition At (t : list event) : Prop := accb chkP t /\ (h_ok (Ht t) = true -> accb chkS t).
+Definition At (t : list event) : Prop :=
+  accb chkP t /\ (h_ok (Ht t) = true -> accb chkS t) /\ accb chk_C05_below t.
 Definition A s : Prop := At (trace s).
 
 Lemma A_emit e s : A s -> chkP (SW s) e = true ->
-  (h_ok (HH s) = true -> h_ok (hyp_step (HH s) e) = true -> chkS (SW s) e = true) -> A (emit e s).
+  (h_ok (HH s) = true -> h_ok (hyp_step (HH s) e) = true -> chkS (SW s) e = true) ->
+  chk_C05_below (SW s) e = true -> A (emit e s).
 Proof.
-  intros [A1 A2] C1 C2. unfold A, At, emit. cbn [trace set]. split.
+  intros (A1 & A2 & A3) C1 C2 C3. unfold A, At, emit. cbn [trace set]. split; [|split].
   - apply accb_cons. split; assumption.
   - intros Hh. change (Ht (e :: trace s)) with (HH (emit e s)) in Hh. rewrite HH_emit in Hh.
     pose proof (hyp_step_mono _ _ Hh) as Hh0. apply accb_cons. split; [apply A2, Hh0|apply C2; assumption].
+  - apply accb_cons. split; assumption.
 Qed.
 
-
 Lemma A_emit_loop e s : is_user e = false -> A s -> A (emit e s).
-Proof. intros N HA. apply A_emit; [exact HA|destruct e; try reflexivity; discriminate|]. intros _ _. destruct e; try reflexivity; discriminate. Qed.
+Proof.
+  intros N HA. apply A_emit; [exact HA|destruct e; try reflexivity; discriminate| |destruct e; try reflexivity; discriminate].
+  intros _ _. destruct e; try reflexivity; discriminate.
+Qed.
 
 Lemma A_trace s s' : trace s' = trace s -> A s -> A s'.
 Proof. unfold A. intros ->. auto. Qed.
@@ -368,7 +555,10 @@ Record Base s : Prop := {
   b_expect : sw_expect (SW s) = [];
   b_repl : sw_replaced (SW s) = None;
   b_ids : Forall (fun d => sd_id d < st_next_sd (ust s)) (st_stack (ust s));
-  b_nodup : NoDup (map sd_id (st_stack (ust s))) }.
+  b_nodup : NoDup (map sd_id (st_stack (ust s)));
+  b_on : frames_on (SW s);
+  b_origs : NoDup (map mf_orig (sw_modal (SW s)));
+  b_orig_lt : Forall (fun f => mf_orig f < st_next_sd (ust s)) (sw_modal (SW s)) }.
 
 (* ... and what holds as long as the hypothesis of the strict form does *)
 Record Strict (g : bool) s : Prop := {
@@ -443,7 +633,7 @@ Proof. intros K T U R F. eapply Keep_trans; [exact K|apply Keep_same; assumption
 Lemma Base_transfer2 s s' : vsame (SW s) (SW s') -> st_stack (ust s') = st_stack (ust s) ->
   st_next_sd (ust s') = st_next_sd (ust s) -> Base s -> Base s'.
 Proof.
-  intros (V1 & V2 & V3 & V4) U1 U2 [B1 B2 B3 B4 B5]. split; rewrite ?U1, ?U2, ?V1, ?V3; auto.
+  intros (V1 & V2 & V3 & V4) U1 U2 [B1 B2 B3 B4 B5 B6 B7 B8]. split; unfold frames_on; rewrite ?U1, ?U2, ?V1, ?V2, ?V3; auto.
   destruct V4 as [V4|V4]; congruence.
 Qed.
 Lemma Base_transfer s s' : vsame (SW s) (SW s') -> ust s' = ust s -> Base s -> Base s'.
@@ -967,7 +1157,9 @@ Proof.
   split; [| | |reflexivity|reflexivity|reflexivity|reflexivity].
   - rewrite SW_emit. apply step_inert_vsame, H1.
   - rewrite HH_emit. reflexivity.
-  - intros HA. apply A_emit; [exact HA|apply chk_inert2, H|intros _ _; apply chk_inert2, H].
+  - intros HA. apply A_emit; [exact HA|apply chk_inert2, H|intros _ _; apply chk_inert2, H|].
+    apply chk_below_not_stack. unfold inert_tag in H1. apply negb_true_iff in H1. apply orb_false_iff in H1.
+    destruct H1 as [H1 _]. apply orb_false_iff in H1. apply H1.
 Qed.
 Lemma std_evt n s tag a t : inert2 tag = true -> Inv s -> std n s (evt tag a t).
 Proof.
@@ -1064,18 +1256,25 @@ Proof.
   unfold plain_tag. intros H. apply negb_true_iff in H. apply orb_false_iff in H. destruct H as [H1 H2].
   cbn [chk_C05_shield_gen]. rewrite H1, H2. reflexivity.
 Qed.
-Lemma A_user_plain tag a t s : plain_tag tag = true -> A s -> A (emit (EUser tag a t) s).
-Proof. intros H HA. apply A_emit; [exact HA|apply chk_plain, H|intros _ _; apply chk_plain, H]. Qed.
+Lemma A_user_plain tag a t s : plain_tag tag = true -> (tag =? T_STACK)%nat = false -> A s -> A (emit (EUser tag a t) s).
+Proof.
+  intros H H2 HA. apply A_emit; [exact HA|apply chk_plain, H|intros _ _; apply chk_plain, H|apply chk_below_not_stack, H2].
+Qed.
+Lemma A_user_stack a t s : chk_C05_below (SW s) (EUser T_STACK a t) = true -> A s -> A (emit (EUser T_STACK a t) s).
+Proof. intros H HA. apply A_emit; [exact HA|reflexivity|intros _ _; reflexivity|exact H]. Qed.
 
 Lemma run_ev_seq n s tag a q (Q : outcome -> st -> Prop) :
-  plain_tag tag = true -> run n (emit (EUser tag a []) s) q Q -> run n s (ev tag a ;; q) Q.
-Proof. intros H R. apply run_seq. unfold ev. apply run_emit; [apply A_user_plain, H|exact R]. Qed.
+  plain_tag tag = true -> (tag =? T_STACK)%nat = false -> run n (emit (EUser tag a []) s) q Q -> run n s (ev tag a ;; q) Q.
+Proof. intros H H2 R. apply run_seq. unfold ev. apply run_emit; [apply A_user_plain; assumption|exact R]. Qed.
+Lemma run_stack_seq n s a q (Q : outcome -> st -> Prop) :
+  chk_C05_below (SW s) (EUser T_STACK a []) = true -> run n (emit (EUser T_STACK a []) s) q Q -> run n s (ev T_STACK a ;; q) Q.
+Proof. intros H R. apply run_seq. unfold ev. apply run_emit; [apply A_user_stack, H|exact R]. Qed.
+Lemma run_stack_last n s a (Q : outcome -> st -> Prop) :
+  chk_C05_below (SW s) (EUser T_STACK a []) = true -> Q ONormal (emit (EUser T_STACK a []) s) -> run n s (ev T_STACK a) Q.
+Proof. intros H HQ. unfold ev. apply run_emit; [apply A_user_stack, H|exact HQ]. Qed.
 Lemma run_wr_seq n s g q (Q : outcome -> st -> Prop) :
   run n (s <| ust := g (ust s) |>) q Q -> run n s (wr g ;; q) Q.
 Proof. intros R. apply run_seq. apply run_wr. exact R. Qed.
-Lemma run_ev_last n s tag a (Q : outcome -> st -> Prop) :
-  plain_tag tag = true -> Q ONormal (emit (EUser tag a []) s) -> run n s (ev tag a) Q.
-Proof. intros H HQ. unfold ev. apply run_emit; [apply A_user_plain, H|exact HQ]. Qed.
 
 Lemma SWt_cons e t : SWt (e :: t) = sworld_step (SWt t) e.
 Proof. unfold SWt. cbn [rev]. rewrite fold_left_app. reflexivity. Qed.
@@ -1131,6 +1330,79 @@ Qed.
 Lemma e_of_modal d : en_modal (e_of d) = sd_modal d. Proof. reflexivity. Qed.
 Lemma e_of_id d : en_id (e_of d) = sd_id d. Proof. reflexivity. Qed.
 
+Lemma map_orig_rename o nw l : map mf_orig (rename_cur o nw l) = map mf_orig l.
+Proof. unfold rename_cur. rewrite map_map. apply map_ext. intros f. destruct (mf_cur f =? o)%nat; reflexivity. Qed.
+Lemma map_orig_close id l : map mf_orig (close_cur id l) = map mf_orig l.
+Proof. unfold close_cur. rewrite map_map. apply map_ext. intros f. destruct (mf_cur f =? id)%nat; reflexivity. Qed.
+Lemma Forall_orig_map (g : mframe -> mframe) (P : nat -> Prop) l :
+  (forall f, mf_orig (g f) = mf_orig f) -> Forall (fun f => P (mf_orig f)) l -> Forall (fun f => P (mf_orig f)) (map g l).
+Proof. intros Hg F. induction F; cbn; constructor; auto. rewrite Hg. assumption. Qed.
+Lemma Forall_orig_lt_S (l : list mframe) m : Forall (fun f => mf_orig f < m) l -> Forall (fun f => mf_orig f < S m) l.
+Proof. intros F. eapply Forall_impl; [|exact F]. cbn. intros; lia. Qed.
+Lemma orig_fresh (l : list mframe) m : Forall (fun f => mf_orig f < m) l -> ~ In m (map mf_orig l).
+Proof. intros F H. apply in_map_iff in H. destruct H as (f & E & Hf). rewrite Forall_forall in F. apply F in Hf. lia. Qed.
+
+(* the world after the announcement of an operation *)
+Lemma OP_view s sm k x y : trace sm = EUser T_OP [k; x; y] [] :: trace s ->
+  sw_stack (SW sm) = sw_stack (SW s) /\ sw_modal (SW sm) = sw_modal (SW s) /\ sw_replaced (SW sm) = sw_replaced (SW s) /\
+  sw_expect (SW sm) = sw_expect (user_step (SW s) T_OP [k; x; y] []).
+Proof.
+  intros T. assert (E : SW sm = user_step (SW s) T_OP [k; x; y] []) by (unfold SW; rewrite T, SWt_cons; reflexivity).
+  rewrite E. destruct (us_op (SW s) k x y []) as (O1 & O2 & O3 & O4). auto.
+Qed.
+Lemma frames_on_eq w w' : sw_stack w' = sw_stack w -> sw_modal w' = sw_modal w -> frames_on w -> frames_on w'.
+Proof. unfold frames_on. intros -> ->. auto. Qed.
+
+(* ---- what lies beneath the frames at the stack primitives ---- *)
+Lemma Below_push s sm k sc a d : Inv s -> trace sm = EUser T_OP [k; sc; a] [] :: trace s -> sd_id d = st_next_sd (ust s) ->
+  chk_C05_below (SW sm) (EUser T_STACK (sargs K_APPEND d) []) = true.
+Proof.
+  intros [[B1 B2 B3 B4 B5 B6 B7 B8] _] T D. destruct (OP_view s sm k sc a T) as (V1 & V2 & V3 & _).
+  apply below_append_new; rewrite ?V1, ?V2, ?V3; auto.
+  - eapply frames_on_eq; eauto.
+  - rewrite B1, map_e_of_id, D. apply fresh_not_in, B4.
+  - rewrite D. apply orig_fresh, B8.
+Qed.
+Lemma Below_schedule s sm sc a d : Inv s -> trace sm = EUser T_OP [O_SCHEDULE; sc; a] [] :: trace s ->
+  chk_C05_below (SW sm) (EUser T_STACK (sargs K_ADD_FIRST d) []) = true.
+Proof.
+  intros [[B1 B2 B3 B4 B5 B6 B7 B8] _] T. destruct (OP_view s sm _ sc a T) as (V1 & V2 & V3 & _).
+  apply below_addfirst; rewrite ?V1, ?V2, ?V3; auto. eapply frames_on_eq; eauto.
+Qed.
+Lemma Below_op_pop s sm k x y top r : Inv s -> st_stack (ust s) = top :: r -> trace sm = EUser T_OP [k; x; y] [] :: trace s ->
+  chk_C05_below (SW sm) (EUser T_STACK (sargs K_POP top) []) = true.
+Proof.
+  intros [[B1 B2 B3 B4 B5 B6 B7 B8] _] U0 T. destruct (OP_view s sm k x y T) as (V1 & V2 & V3 & _).
+  apply (below_pop _ _ _ (e_of top) (map e_of r)); rewrite ?V1, ?V2, ?V3; auto.
+  - eapply frames_on_eq; eauto.
+  - rewrite B1, U0. reflexivity.
+Qed.
+Lemma Below_fail_pop s sm top r : Inv s -> st_stack (ust s) = top :: r -> trace sm = trace s ->
+  chk_C05_below (SW sm) (EUser T_STACK (sargs K_POP top) []) = true.
+Proof.
+  intros [[B1 B2 B3 B4 B5 B6 B7 B8] _] U0 T. assert (E : SW sm = SW s) by (unfold SW; rewrite T; reflexivity). rewrite E.
+  apply (below_pop _ _ _ (e_of top) (map e_of r)); auto. rewrite B1, U0. reflexivity.
+Qed.
+Lemma Below_replace_append s sm sc a top r d : Inv s -> st_stack (ust s) = top :: r ->
+  trace sm = EUser T_STACK (sargs K_POP top) [] :: EUser T_OP [O_REPLACE; sc; a] [] :: trace s ->
+  sd_id d = st_next_sd (ust s) ->
+  chk_C05_below (SW sm) (EUser T_STACK (sargs K_APPEND d) []) = true.
+Proof.
+  intros [[B1 B2 B3 B4 B5 B6 B7 B8] _] U0 T D.
+  assert (E : SW sm = user_step (user_step (SW s) T_OP [O_REPLACE; sc; a] []) T_STACK (sargs K_POP top) [])
+    by (unfold SW; rewrite T, !SWt_cons; reflexivity).
+  destruct (us_op (SW s) O_REPLACE sc a []) as (O1 & O2 & O3 & O4). set (w1 := user_step (SW s) T_OP [O_REPLACE; sc; a] []) in *.
+  destruct (us_pop w1 top []) as (Q1 & Q2). set (w2 := user_step w1 T_STACK (sargs K_POP top) []) in *.
+  rewrite U0 in B1, B4, B5. cbn [map] in B1, B5.
+  assert (E4 : sw_expect w1 = [XPop false; XAppend sc a None]) by (rewrite O4, B1; reflexivity).
+  rewrite E4 in Q2. destruct Q2 as (Q2 & Q3 & Q4). rewrite O1, B1 in Q1. cbn [tl] in Q1. rewrite O2 in Q4.
+  pose proof (Forall_inv_tail B4) as Br. apply NoDup_cons_iff in B5. destruct B5 as [Nt Nr].
+  rewrite E. apply (below_append_repl w2 d [] (sd_id top)); rewrite ?Q1, ?Q4; auto.
+  - intros f Hf C. specialize (B6 f Hf C). rewrite B1 in B6. cbn [map e_of en_id] in B6. destruct B6 as [X|X]; [left; auto|right; exact X].
+  - rewrite map_e_of_id, D. apply fresh_not_in, Br.
+  - rewrite map_e_of_id. exact Nt.
+Qed.
+
 (* ---- push / push_modal up to the append ---- *)
 Lemma Inv_push s s' k sc a m :
   (k = O_PUSH /\ m = false) \/ (k = O_PUSH_MODAL /\ m = true) ->
@@ -1140,7 +1412,7 @@ Lemma Inv_push s s' k sc a m :
   run_loop s' = run_loop s -> force_quit s' = force_quit s -> Inv s ->
   InvG (negb m) s' /\ sw_modal (SW s') = (if m then [frame_of d] else []) ++ sw_modal (SW s) /\ HH s' = HH s.
 Proof.
-  intros HK d T U1 U2 RL FQ [[B1 B2 B3 B4 B5] St].
+  intros HK d T U1 U2 RL FQ [[B1 B2 B3 B4 B5 B6 B7 B8] St].
   assert (Eh : HH s' = HH s) by (unfold HH; rewrite T, !Ht_cons_user; reflexivity).
   assert (EW : SW s' = user_step (user_step (SW s) T_OP [k; sc; a] []) T_STACK (sargs K_APPEND d) [])
     by (unfold SW; rewrite T, !SWt_cons; reflexivity).
@@ -1150,10 +1422,17 @@ Proof.
   rewrite O3, B3, O2 in P4. rewrite E4 in P2. cbn [tl] in P2. rewrite O1 in P1.
   assert (EM : sw_modal w2 = (if m then [frame_of d] else []) ++ sw_modal (SW s)) by (rewrite P4; destruct m; reflexivity).
   split; [|split; [rewrite EW; exact EM|exact Eh]]. split.
-  - split; rewrite ?EW, ?P1, ?P2, ?P3, ?U1, ?U2; auto.
+  - split; unfold frames_on; rewrite ?EW, ?P1, ?P2, ?P3, ?U1, ?U2, ?EM.
     + cbn [map]. rewrite B1. reflexivity.
+    + reflexivity.
+    + reflexivity.
     + constructor; [cbn; lia|apply Forall_lt_S, B4].
     + cbn [map]. constructor; [apply fresh_not_in, B4|exact B5].
+    + intros f Hf C. cbn [map]. apply in_app_or in Hf. destruct Hf as [Hf|Hf].
+      * destruct m; [|destruct Hf]. destruct Hf as [<-|[]]. left. reflexivity.
+      * right. apply B6; assumption.
+    + rewrite map_app. destruct m; cbn [map app]; [|exact B7]. constructor; [apply orig_fresh, B8|exact B7].
+    + apply Forall_app. split; [destruct m; constructor; [cbn; lia|constructor]|apply Forall_orig_lt_S, B8].
   - rewrite Eh. intros Hok. destruct (St Hok) as [S1 S2 S3 S4].
     split; rewrite ?Eh, ?RL, ?FQ, ?EW; auto.
     + rewrite EM, P1, mei_cons. cbn [e_of en_modal en_id sd_modal sd_id d]. destruct m; cbn [app]; [|exact S3].
@@ -1170,7 +1449,7 @@ Lemma Inv_replace s s' sc a top r :
   st_stack (ust s') = d :: r -> st_next_sd (ust s') = S (st_next_sd (ust s)) ->
   run_loop s' = run_loop s -> force_quit s' = force_quit s -> Inv s -> Inv s' /\ Rel true s s'.
 Proof.
-  intros U0 d T U1 U2 RL FQ [[B1 B2 B3 B4 B5] St].
+  intros U0 d T U1 U2 RL FQ [[B1 B2 B3 B4 B5 B6 B7 B8] St].
   assert (Eh : HH s' = HH s) by (unfold HH; rewrite T, !Ht_cons_user; reflexivity).
   assert (EW : SW s' = user_step (user_step (user_step (SW s) T_OP [O_REPLACE; sc; a] []) T_STACK (sargs K_POP top) [])
                                  T_STACK (sargs K_APPEND d) [])
@@ -1183,11 +1462,23 @@ Proof.
   assert (E4 : sw_expect w1 = [XPop false; XAppend sc a None]) by (rewrite O4, B1; reflexivity).
   rewrite E4 in Q2. destruct Q2 as (Q2 & Q3 & Q4). rewrite Q3, Q4, O2 in P4. rewrite Q2 in P2. cbn [tl] in P2.
   rewrite Q1, O1, B1 in P1. cbn [tl] in P1.
-  inversion B4 as [|? ? Bt Br]; subst. inversion B5 as [|? ? Nt Nr]; subst.
+  pose proof (Forall_inv_tail B4) as Br. pose proof (proj1 (NoDup_cons_iff _ _) B5) as [Nt Nr].
   split; [|split; [apply Relw_modal; rewrite P4; apply frames_le_rename|auto]]. split.
-  - split; rewrite ?EW; fold w1 w2 w3; rewrite ?P1, ?P2, ?P3, ?U1, ?U2; auto.
+  - split; unfold frames_on; rewrite ?EW; fold w1 w2 w3; rewrite ?P1, ?P2, ?P3, ?P4, ?U1, ?U2.
+    + reflexivity.
+    + reflexivity.
+    + reflexivity.
     + constructor; [cbn; lia|apply Forall_lt_S, Br].
     + cbn [map]. constructor; [apply fresh_not_in, Br|exact Nr].
+    + intros f' Hf' C'. unfold rename_cur in Hf'. apply in_map_iff in Hf'. destruct Hf' as (f & <- & Hf).
+      cbv beta in *. cbn [map e_of en_id]. destruct (mf_cur f =? sd_id top)%nat eqn:E.
+      * left. reflexivity.
+      * right. pose proof C' as C.
+        specialize (B6 f Hf C). rewrite B1 in B6. cbn [map e_of en_id] in B6. apply Nat.eqb_neq in E.
+        destruct B6 as [X|X]; [congruence|exact X].
+    + rewrite map_orig_rename. exact B7.
+    + apply Forall_orig_lt_S. unfold rename_cur. apply (Forall_orig_map _ (fun o => o < st_next_sd (ust s))); [|exact B8].
+      intros f. destruct (mf_cur f =? sd_id top)%nat; reflexivity.
   - rewrite Eh. intros Hok. destruct (St Hok) as [S1 S2 S3 S4].
     split; rewrite ?Eh, ?RL, ?FQ, ?EW; fold w1 w2 w3; auto.
     + rewrite P4, P1. rewrite B1 in S3.
@@ -1203,7 +1494,7 @@ Lemma Inv_schedule s s' sc a :
   st_stack (ust s') = st_stack (ust s) ++ [d] -> st_next_sd (ust s') = S (st_next_sd (ust s)) ->
   run_loop s' = run_loop s -> force_quit s' = force_quit s -> Inv s -> Inv s' /\ Rel true s s'.
 Proof.
-  intros d T U1 U2 RL FQ [[B1 B2 B3 B4 B5] St].
+  intros d T U1 U2 RL FQ [[B1 B2 B3 B4 B5 B6 B7 B8] St].
   assert (Eh : HH s' = HH s) by (unfold HH; rewrite T, !Ht_cons_user; reflexivity).
   assert (EW : SW s' = user_step (user_step (SW s) T_OP [O_SCHEDULE; sc; a] []) T_STACK (sargs K_ADD_FIRST d) [])
     by (unfold SW; rewrite T, !SWt_cons; reflexivity).
@@ -1213,10 +1504,12 @@ Proof.
   assert (E4 : sw_expect w1 = [XAddFirst sc a]) by (rewrite O4; reflexivity).
   rewrite E4 in P2. cbn [tl] in P2. rewrite O1 in P1. rewrite O3 in P3. rewrite O2 in P4.
   split; [|split; [apply Relw_modal; rewrite P4; apply frames_le_refl|auto]]. split.
-  - split; rewrite ?EW; fold w1 w2; rewrite ?P1, ?P2, ?P3, ?U1, ?U2; auto.
+  - split; unfold frames_on; rewrite ?EW; fold w1 w2; rewrite ?P1, ?P2, ?P3, ?P4, ?U1, ?U2; auto.
     + rewrite map_app, B1. reflexivity.
     + apply Forall_app. split; [apply Forall_lt_S, B4|constructor; [cbn; lia|constructor]].
     + rewrite map_app. cbn [map]. apply NoDup_app_snoc; [exact B5|apply fresh_not_in, B4].
+    + intros f Hf C. rewrite map_app, in_app_iff. left. apply B6; assumption.
+    + apply Forall_orig_lt_S, B8.
   - rewrite Eh. intros Hok. destruct (St Hok) as [S1 S2 S3 S4].
     split; rewrite ?Eh, ?RL, ?FQ, ?EW; fold w1 w2; rewrite ?P4, ?P1; auto. rewrite mei_app by reflexivity. exact S3.
 Qed.
@@ -1230,7 +1523,7 @@ Lemma Inv_pop_core s s' w1 top r :
   st_stack (ust s') = r -> st_next_sd (ust s') = st_next_sd (ust s) -> run_loop s' = run_loop s -> force_quit s' = force_quit s ->
   Inv s' /\ Rel true s s' /\ (sd_modal top = true -> h_ok (HH s') = true -> head_closed (sw_modal (SW s'))).
 Proof.
-  intros U0 [[B1 B2 B3 B4 B5] St] V1 V2 V3 V4 EW Eh U1 U2 RL FQ.
+  intros U0 [[B1 B2 B3 B4 B5 B6 B7 B8] St] V1 V2 V3 V4 EW Eh U1 U2 RL FQ.
   destruct (us_pop w1 top []) as (Q1 & Q2). set (w2 := user_step w1 T_STACK (sargs K_POP top) []) in *.
   assert (Q : sw_expect w2 = [] /\ sw_replaced w2 = sw_replaced w1 /\ sw_modal w2 = close_cur (sd_id top) (sw_modal w1)).
   { destruct V4 as [V4|V4]; rewrite V4 in Q2; exact Q2. }
@@ -1240,7 +1533,14 @@ Proof.
   rewrite V1, B1 in Q1. cbn [tl] in Q1. rewrite V3, B3 in Q3. rewrite V2 in Q4.
   unfold Rel. rewrite Eh, EW. split; [|split].
   - split.
-    + split; rewrite ?EW, ?U1, ?U2; auto.
+    + split; unfold frames_on; rewrite ?EW; fold w2; rewrite ?Q1, ?Q2', ?Q3, ?Q4, ?U1, ?U2; auto.
+      * intros f' Hf' C'. unfold close_cur in Hf'. apply in_map_iff in Hf'. destruct Hf' as (f & <- & Hf).
+        cbv beta in *. destruct (mf_cur f =? sd_id top)%nat eqn:E; [discriminate C'|].
+        specialize (B6 f Hf C'). rewrite B1 in B6. cbn [map e_of en_id] in B6. apply Nat.eqb_neq in E.
+        destruct B6 as [X|X]; [congruence|exact X].
+      * rewrite map_orig_close. exact B7.
+      * unfold close_cur. apply (Forall_orig_map _ (fun o => o < st_next_sd (ust s))); [|exact B8].
+        intros f. destruct (mf_cur f =? sd_id top)%nat; reflexivity.
     + rewrite Eh. intros Hok. destruct (St Hok) as [S1 S2 S3 S4].
       split; rewrite ?Eh, ?RL, ?FQ, ?EW; auto.
       * rewrite Q4, Q1. rewrite B1 in S3.
@@ -1261,7 +1561,7 @@ Proof.
   intros U0 T U1 U2 RL FQ HI.
   destruct (us_op (SW s) O_CLOSE x 0 []) as (O1 & O2 & O3 & O4).
   apply (Inv_pop_core s s' (user_step (SW s) T_OP [O_CLOSE; x; 0] []) top r); auto.
-  - left. rewrite O4. destruct HI as [[B1 _ _ _ _] _]. rewrite B1, U0. reflexivity.
+  - left. rewrite O4. destruct HI as [[B1 _ _ _ _ _ _ _] _]. rewrite B1, U0. reflexivity.
   - unfold SW. rewrite T, !SWt_cons. reflexivity.
   - unfold HH. rewrite T, !Ht_cons_user. reflexivity.
 Qed.
@@ -1284,19 +1584,19 @@ Qed.
 Lemma Keep_op_empty s k x y : st_stack (ust s) = [] -> (k = O_REPLACE \/ k = O_CLOSE) -> Inv s ->
   Keep s (emit (EUser T_OP [k; x; y] []) s).
 Proof.
-  intros U0 HK [[B1 B2 B3 B4 B5] _]. destruct (us_op (SW s) k x y []) as (O1 & O2 & O3 & O4).
+  intros U0 HK [[B1 B2 B3 B4 B5 B6 B7 B8] _]. destruct (us_op (SW s) k x y []) as (O1 & O2 & O3 & O4).
   split; [| | |reflexivity|reflexivity|reflexivity|reflexivity].
   - rewrite SW_emit. cbn [sworld_step]. repeat split; auto. right. rewrite O4, B1, U0.
     destruct HK as [-> | ->]; reflexivity.
   - rewrite HH_emit. reflexivity.
-  - apply A_user_plain. reflexivity.
+  - apply A_user_plain; reflexivity.
 Qed.
 
 (* ---- the return of a modal push ---- *)
 Lemma A_modal_return s5 id sc f' rest : A s5 -> sw_modal (SW s5) = f' :: rest -> mf_orig f' = id ->
   (h_ok (HH s5) = true -> mf_closed f' = true) -> A (emit (EUser T_MODAL_RETURN [id; sc] []) s5).
 Proof.
-  intros HA M O C. apply A_emit; [exact HA| |].
+  intros HA M O C. apply A_emit; [exact HA| | |reflexivity].
   - unfold chkP. cbn. rewrite M. cbn [find]. rewrite O, Nat.eqb_refl. apply orb_true_r.
   - intros Hok _. unfold chkS. cbn. rewrite M. cbn [find]. rewrite O, Nat.eqb_refl. rewrite (C Hok). reflexivity.
 Qed.
@@ -1307,13 +1607,17 @@ Lemma Inv_modal_return s5 s' id sc f' rest :
   (h_ok (HH s5) = true -> mf_closed f' = true) -> (force_quit s5 = false -> run_loop s5 = true) ->
   Inv s' /\ sw_modal (SW s') = rest /\ HH s' = HH s5.
 Proof.
-  intros T U RL FQ [[B1 B2 B3 B4 B5] St] M O C RA.
+  intros T U RL FQ [[B1 B2 B3 B4 B5 B6 B7 B8] St] M O C RA.
   assert (Eh : HH s' = HH s5) by (unfold HH; rewrite T, !Ht_cons_user; reflexivity).
   assert (EW : SW s' = user_step (SW s5) T_MODAL_RETURN [id; sc] []) by (unfold SW; rewrite T, !SWt_cons; reflexivity).
   destruct (us_modal_return (SW s5) id sc []) as (R1 & R2 & R3 & R4).
   rewrite M in R4. cbn [remove_first] in R4. rewrite O, Nat.eqb_refl in R4.
   split; [|split; [rewrite EW; exact R4|exact Eh]]. split.
-  - split; rewrite ?EW, ?R1, ?R2, ?R3, ?U; auto.
+  - unfold frames_on in B6. rewrite M in B6, B7, B8.
+    split; unfold frames_on; rewrite ?EW, ?R1, ?R2, ?R3, ?R4, ?U; auto.
+    + intros f Hf Cf. apply B6; [right; exact Hf|exact Cf].
+    + cbn [map] in B7. apply NoDup_cons_iff in B7. apply B7.
+    + apply (Forall_inv_tail B8).
   - rewrite Eh. intros Hok. destruct (St Hok) as [S1 S2 S3 S4].
     assert (RL5 : run_loop s5 = true) by auto.
     split; rewrite ?Eh, ?RL, ?FQ, ?EW, ?RL5; auto; try discriminate.
@@ -1334,7 +1638,7 @@ Definition top_tag (tag : nat) : Prop := tag = T_SETUP \/ tag = T_REFRESH \/ tag
 Lemma Keep_top_event s tag a t d r : top_tag tag -> Inv s -> st_stack (ust s) = d :: r -> nth0 a 0 = sd_id d ->
   Keep s (emit (EUser tag a t) s).
 Proof.
-  intros HT [[B1 _ _ _ _] _] U0 N.
+  intros HT [[B1 _ _ _ _ _ _ _] _] U0 N.
   assert (C : forall b, chk_C05_shield_gen b (SW s) (EUser tag a t) = true).
   { intros b. cbn [chk_C05_shield_gen].
     assert (((tag =? T_SETUP)%nat || (tag =? T_REFRESH)%nat || (tag =? T_SHOW)%nat) = true) as ->
@@ -1344,7 +1648,8 @@ Proof.
   split; [| | |reflexivity|reflexivity|reflexivity|reflexivity].
   - rewrite SW_emit. apply step_inert_vsame. destruct HT as [->|[->| ->]]; reflexivity.
   - rewrite HH_emit. reflexivity.
-  - intros HA. apply A_emit; [exact HA|apply C|intros _ _; apply C].
+  - intros HA. apply A_emit; [exact HA|apply C|intros _ _; apply C|].
+    apply chk_below_not_stack. destruct HT as [->|[->| ->]]; reflexivity.
 Qed.
 
 Section scmd_ind2.
@@ -1391,8 +1696,9 @@ Variables self cnt : nat.
 
 Lemma std_push s sc a : Inv s -> std n s (do_scmd specs cn self cnt (SPush sc a)).
 Proof.
-  intros HI. cbn [do_scmd]. apply run_ev_seq; [reflexivity|]. unfold new_sd. apply run_rd. cbv beta zeta.
-  apply run_wr_seq. apply run_wr_seq. unfold ev_stack. apply run_ev_seq; [reflexivity|].
+  intros HI. cbn [do_scmd]. apply run_ev_seq; [reflexivity|reflexivity|]. unfold new_sd. apply run_rd. cbv beta zeta.
+  apply run_wr_seq. apply run_wr_seq. unfold ev_stack.
+  apply run_stack_seq; [apply (Below_push s _ O_PUSH sc a); [exact HI|reflexivity|reflexivity]|].
   set (s4 := emit _ _).
   destruct (Inv_push s s4 O_PUSH sc a false (or_introl (conj eq_refl eq_refl)) eq_refl eq_refl eq_refl eq_refl eq_refl HI)
     as (I4 & M4 & H4).
@@ -1402,8 +1708,9 @@ Qed.
 
 Lemma std_push_modal s sc a : Inv s -> std n s (do_scmd specs cn self cnt (SPushModal sc a)).
 Proof.
-  intros HI. cbn [do_scmd]. apply run_ev_seq; [reflexivity|]. unfold new_sd. apply run_rd. cbv beta zeta.
-  apply run_wr_seq. apply run_wr_seq. unfold ev_stack. apply run_ev_seq; [reflexivity|].
+  intros HI. cbn [do_scmd]. apply run_ev_seq; [reflexivity|reflexivity|]. unfold new_sd. apply run_rd. cbv beta zeta.
+  apply run_wr_seq. apply run_wr_seq. unfold ev_stack.
+  apply run_stack_seq; [apply (Below_push s _ O_PUSH_MODAL sc a); [exact HI|reflexivity|reflexivity]|].
   set (s4 := emit _ _).
   destruct (Inv_push s s4 O_PUSH_MODAL sc a true (or_intror (conj eq_refl eq_refl)) eq_refl eq_refl eq_refl eq_refl eq_refl HI)
     as (I4 & M4 & H4).
@@ -1434,12 +1741,15 @@ Qed.
 
 Lemma std_replace s sc a : Inv s -> std n s (do_scmd specs cn self cnt (SReplace sc a)).
 Proof.
-  intros HI. cbn [do_scmd]. apply run_ev_seq; [reflexivity|]. apply run_rd. cbv beta. rewrite ust_emit.
+  intros HI. cbn [do_scmd]. apply run_ev_seq; [reflexivity|reflexivity|]. apply run_rd. cbv beta. rewrite ust_emit.
   destruct (st_stack (ust s)) as [|top r] eqn:U0.
   - apply run_throw. pose proof (Keep_op_empty s O_REPLACE sc a U0 (or_introl eq_refl) HI) as K.
     split; [eapply Keep_inv; eauto|apply Keep_rel, K].
-  - apply run_wr_seq. unfold ev_stack. apply run_ev_seq; [reflexivity|]. unfold new_sd. apply run_rd. cbv beta zeta.
-    apply run_wr_seq. apply run_wr_seq. apply run_ev_seq; [reflexivity|].
+  - apply run_wr_seq. unfold ev_stack.
+    apply run_stack_seq; [apply (Below_op_pop s _ O_REPLACE sc a top r); [exact HI|exact U0|reflexivity]|].
+    unfold new_sd. apply run_rd. cbv beta zeta.
+    apply run_wr_seq. apply run_wr_seq.
+    apply run_stack_seq; [apply (Below_replace_append s _ sc a top r); [exact HI|exact U0|reflexivity|reflexivity]|].
     set (s4 := emit _ _).
     destruct (Inv_replace s s4 sc a top r U0 eq_refl eq_refl eq_refl eq_refl eq_refl HI) as (I4 & R4).
     clearbody s4. eapply run_conseq; [apply (std_sched_redraw n L), I4|]. intros o s' P. eapply std_post_l; eauto.
@@ -1447,8 +1757,9 @@ Qed.
 
 Lemma std_schedule s sc a : Inv s -> std n s (do_scmd specs cn self cnt (SSchedule sc a)).
 Proof.
-  intros HI. cbn [do_scmd]. apply run_ev_seq; [reflexivity|]. unfold new_sd. apply run_rd. cbv beta zeta.
-  apply run_wr_seq. apply run_wr_seq. unfold ev_stack. apply run_ev_seq; [reflexivity|].
+  intros HI. cbn [do_scmd]. apply run_ev_seq; [reflexivity|reflexivity|]. unfold new_sd. apply run_rd. cbv beta zeta.
+  apply run_wr_seq. apply run_wr_seq. unfold ev_stack.
+  apply run_stack_seq; [apply (Below_schedule s _ sc a); [exact HI|reflexivity]|].
   set (s4 := emit _ _).
   destruct (Inv_schedule s s4 sc a eq_refl eq_refl eq_refl eq_refl eq_refl HI) as (I4 & R4).
   clearbody s4. eapply run_conseq; [|intros o s' P; eapply std_post_l; [exact R4|exact P]].
@@ -1524,12 +1835,13 @@ Proof. intros [Rw Mono] HC M Hok. apply (Relw_head_closed _ _ Rw). apply HC; aut
 
 Lemma std_close_screen s cf : Inv s -> std n s (close_screen specs cf).
 Proof.
-  intros HI. unfold close_screen. apply run_ev_seq; [reflexivity|]. apply run_rd. cbv beta. rewrite ust_emit.
+  intros HI. unfold close_screen. apply run_ev_seq; [reflexivity|reflexivity|]. apply run_rd. cbv beta. rewrite ust_emit.
   destruct (st_stack (ust s)) as [|top r] eqn:U0.
   - apply run_throw.
     pose proof (Keep_op_empty s O_CLOSE (match cf with Some c => S c | None => 0 end) 0 U0 (or_intror eq_refl) HI) as K.
     split; [eapply Keep_inv; eauto|apply Keep_rel, K].
-  - apply run_wr_seq. unfold ev_stack. apply run_ev_seq; [reflexivity|].
+  - apply run_wr_seq. unfold ev_stack.
+    apply run_stack_seq; [apply (Below_op_pop s _ O_CLOSE (match cf with Some c => S c | None => 0 end) 0 top r); [exact HI|exact U0|reflexivity]|].
     set (s3 := emit _ _).
     destruct (Inv_close_pop s s3 (match cf with Some c => S c | None => 0 end) top r U0 eq_refl eq_refl eq_refl eq_refl eq_refl HI)
       as (I3 & R3 & HC3).
@@ -1662,7 +1974,8 @@ Proof.
   assert (U1 : st_stack (ust s1) = top :: r) by (rewrite (k_u1 _ _ K1); exact U0).
   clear P1. apply run_rd. cbv beta. destruct (negb (st_rb (ust s1))).
   - (* the setup failed: discard the entry *)
-    apply run_seq. apply run_rd. cbv beta. rewrite U1. apply run_wr_seq. unfold ev_stack. apply run_ev_last; [reflexivity|].
+    apply run_seq. apply run_rd. cbv beta. rewrite U1. apply run_wr_seq. unfold ev_stack.
+    apply run_stack_last; [apply (Below_fail_pop s1 _ top r); [exact I1|exact U1|reflexivity]|].
     set (s3 := emit _ _).
     destruct (Inv_fail_pop s1 s3 top r U1 eq_refl eq_refl eq_refl eq_refl eq_refl I1) as (I3 & R3 & HC3).
     clearbody s3. apply (run_std_post s s3); [eapply Rel_trans_l; eauto|].
@@ -1699,9 +2012,9 @@ Proof. induction n as [|n IH]; [apply LoopOK_0|]. apply loop_step; [exact IH|app
 Lemma Inv_init u : st_stack u = [] -> Inv (init_state u) /\ A (init_state u).
 Proof.
   intros U. split; [split|].
-  - split; cbn; rewrite ?U; auto; constructor.
+  - split; cbn; rewrite ?U; auto; try constructor. intros f [].
   - intros _. split; cbn; auto; discriminate.
-  - split; [reflexivity|intros _; reflexivity].
+  - split; [reflexivity|split; [intros _; reflexivity|reflexivity]].
 Qed.
 
 Lemma Keep_top s : Keep s (emit ETop s).
@@ -1758,10 +2071,30 @@ End Screen.
    frame closed *)
 Theorem C05_shield_session specs specl typed quit run_empty fuel acts :
   let t := rev (trace (snd (app_run_all specs specl typed quit run_empty fuel acts))) in
-  sok chk_C05_shield_partial typed t = true /\ (no_f13 t = true -> sok chk_C05_shield typed t = true).
+  sok chk_C05_shield_partial typed t = true /\ (no_f13 t = true -> sok chk_C05_shield typed t = true) /\
+  sok chk_C05_below typed t = true.
 Proof.
-  intros t. destruct (app_run_all_ok specs typed specl typed quit run_empty fuel acts) as [A1 A2].
-  split; [apply sok_iff; exact A1|]. intros H. apply sok_iff. apply A2. exact H.
+  intros t. destruct (app_run_all_ok specs typed specl typed quit run_empty fuel acts) as (A1 & A2 & A3).
+  split; [apply sok_iff; exact A1|]. split; [|apply sok_iff; exact A3]. intros H. apply sok_iff. apply A2. exact H.
+Qed.
+
+(* events other than the stack primitives leave the stack and every frame's current entry alone: the
+   announcement of an operation changes nothing of them, the return of a modal push only removes its frame *)
+Lemma step_not_stack w e :
+  match e with EUser tag _ _ => tag <> T_STACK | _ => True end ->
+  sw_stack (sworld_step w e) = sw_stack w /\ sw_replaced (sworld_step w e) = sw_replaced w /\
+  (sw_modal (sworld_step w e) = sw_modal w \/
+   exists id, sw_modal (sworld_step w e) = remove_first (fun f => (mf_orig f =? id)%nat) (sw_modal w)).
+Proof.
+  intros H. destruct e;
+    try (match goal with |- context [sworld_step w ?e] => destruct (step_loop_vsame w e eq_refl) as (V1 & V2 & V3 & _) end; auto; fail).
+  cbn [sworld_step]. destruct (tag =? T_OP)%nat eqn:E1.
+  { apply Nat.eqb_eq in E1; subst tag. cbn. auto. }
+  destruct (tag =? T_MODAL_RETURN)%nat eqn:E2.
+  { apply Nat.eqb_eq in E2; subst tag. cbn. split; [reflexivity|split; [reflexivity|right; eauto]]. }
+  assert (I : inert_tag tag = true).
+  { unfold inert_tag. rewrite E1, E2. apply Nat.eqb_neq in H. rewrite H. reflexivity. }
+  destruct (step_inert_vsame w tag args text I) as (V1 & V2 & V3 & _). auto.
 Qed.
 
 (* ---- the full acceptors are the proved part and the input clause ---- *)
@@ -1792,7 +2125,7 @@ Theorem C05_session_modulo_input specs specl typed quit run_empty fuel acts :
   sok chk_C05_partial typed t = sok chk_C05_input typed t /\
   (no_f13 t = true -> sok chk_C05 typed t = sok chk_C05_input typed t).
 Proof.
-  intros t. destruct (C05_shield_session specs specl typed quit run_empty fuel acts) as [H1 H2]. fold t in H1, H2.
+  intros t. destruct (C05_shield_session specs specl typed quit run_empty fuel acts) as (H1 & H2 & _). fold t in H1, H2.
   split.
   - unfold chk_C05_partial. rewrite sok_C05_gen_split. fold chk_C05_shield_partial. rewrite H1. reflexivity.
   - intros N. unfold chk_C05. rewrite sok_C05_gen_split. fold chk_C05_shield. rewrite (H2 N). reflexivity.
@@ -1896,6 +2229,12 @@ Definition f13 := session f13_specs f13_typed start.
 (* a hand-written trace: entry 0, a modal entry 1 on top of it, then a refresh of entry 0 *)
 Definition bad_trace : list event :=
   [EUser T_STACK [K_APPEND; 0; 0; 0; 0] []; EUser T_STACK [K_APPEND; 1; 1; 0; 1] []; EUser T_REFRESH [0; 0; 0] []].
+
+(* a hand-written trace in which the entry beneath a modal entry disappears while its frame is open:
+   a replace of the modal entry that pops twice *)
+Definition bad_below : list event :=
+  [EUser T_STACK [K_APPEND; 0; 0; 0; 0] []; EUser T_STACK [K_APPEND; 1; 1; 0; 1] [];
+   EUser T_OP [O_REPLACE; 2; 0] []; EUser T_STACK [K_POP; 1; 1; 0; 1] []; EUser T_STACK [K_POP; 0; 0; 0; 0] []].
 
 (* finding F16: input() of a screen beneath an open modal screen.
    cx1: the same screen object twice on the stack, beneath and above the modal screen *)
